@@ -903,6 +903,146 @@ Proof.
     exists i. exact Hx.
 Qed.
 
+(* ---- an explicit fuel bound ---------------------------------------------------------------------- *)
+
+Section Bound.
+  Variable canon : list alt -> list alt.
+  Variable g : graph.
+  Variable lv : nat -> nat.
+  Hypothesis Hwf : gwf g lv.
+
+  Definition NL := S (length (loops g)).
+  Definition NF := S (length (flows g)).
+  (* depth of the evaluation of flow f (index <= F, level <= L) with at most C loops not being resolved *)
+  Definition depth_bound (L C F : nat) : nat := L * NL * NF + C * NF + F + 1.
+
+  Lemma cnt_le R : cnt g R <= length (loops g).
+  Proof.
+    unfold cnt. rewrite <- (seq_length (length (loops g)) 0) at 2.
+    generalize (seq 0 (length (loops g))). intros l. induction l as [|x r IH]; simpl; [lia|].
+    destruct (negb (existsb (Nat.eqb x) R)); simpl; lia.
+  Qed.
+
+  Lemma gather_defined_at k R : forall ps,
+    (forall i, In (Direct i) ps -> exists e, names_pure canon g k R i = Some e) ->
+    (forall l, In (Loop l) ps -> ~ In l R -> exists t e, nth_error (loops g) l = Some t /\ names_pure canon g k (l :: R) t = Some e) ->
+    (forall l, In (Loop l) ps -> exists t, nth_error (loops g) l = Some t) ->
+    exists es, gather g (names_pure canon g k) R ps = Some es.
+  Proof.
+    induction ps as [|p r IH]; intros HD HL HT; [exists []; reflexivity|].
+    destruct IH as [es Hes].
+    - intros i Hi. apply HD. right. exact Hi.
+    - intros l Hl. apply HL. right. exact Hl.
+    - intros l Hl. apply HT. right. exact Hl.
+    - destruct p as [i|l]; simpl.
+      + destruct (HD i (or_introl eq_refl)) as [e He]. rewrite He, Hes. eauto.
+      + destruct (existsb (Nat.eqb l) R) eqn:Em; [exists es; exact Hes|].
+        apply existsb_eqb_nIn in Em. destruct (HL l (or_introl eq_refl) Em) as [t [e [Ht He]]].
+        rewrite Ht, He, Hes. eauto.
+  Qed.
+
+  Lemma sequence_defined_at k R : forall cs, (forall c, In c cs -> exists e, names_pure canon g k R c = Some e) ->
+    exists es, sequence (map (names_pure canon g k R) cs) = Some es.
+  Proof.
+    induction cs as [|c r IH]; intros H; [exists []; reflexivity|].
+    destruct IH as [es Hes]; [intros x Hx; apply H; right; exact Hx|].
+    destruct (H c (or_introl eq_refl)) as [e He]. simpl. rewrite He, Hes. eauto.
+  Qed.
+
+  Lemma flow_lt f fl : nth_error (flows g) f = Some fl -> f < length (flows g).
+  Proof. intros H. apply nth_error_Some. congruence. Qed.
+
+  Lemma pnames_defined_at k R f fl :
+    nth_error (flows g) f = Some fl ->
+    (forall i il, In (Direct i) (parents fl) -> nth_error (flows g) i = Some il -> exists e, names_pure canon g k R i = Some e) ->
+    (forall l t tl, In (Loop l) (parents fl) -> ~ In l R -> nth_error (loops g) l = Some t -> nth_error (flows g) t = Some tl ->
+        exists e, names_pure canon g k (l :: R) t = Some e) ->
+    (forall c cl, parents fl = [] -> In c (chain fl) -> nth_error (flows g) c = Some cl -> exists e, names_pure canon g k R c = Some e) ->
+    exists pe, pnames_with canon g (names_pure canon g k) R fl = Some pe.
+  Proof.
+    intros Hf HD HL HC. unfold pnames_with. destruct (parents fl) as [|p ps] eqn:Ep.
+    - destruct (sequence_defined_at k R (chain fl)) as [es Hes].
+      + intros c Hc. destruct (wf_chain g lv Hwf f fl c Hf Ep Hc) as [_ [cl Hcl]]. eapply HC; eauto.
+      + rewrite Hes. eauto.
+    - destruct (gather_defined_at k R (p :: ps)) as [es Hes].
+      + intros i Hi. destruct (wf_dir g lv Hwf f fl i Hf ltac:(rewrite Ep; exact Hi)) as [_ Hlt].
+        assert (Hi' : exists il, nth_error (flows g) i = Some il).
+        { destruct (nth_error (flows g) i) eqn:E; [eauto|]. apply nth_error_None in E. assert (A := flow_lt f fl Hf). lia. }
+        destruct Hi' as [il Hil]. eapply HD; eauto.
+      + intros l Hl Hn. destruct (wf_loop g lv Hwf f fl l Hf ltac:(rewrite Ep; exact Hl)) as [t [tl [Ht [_ Htl]]]].
+        destruct (HL l t tl Hl Hn Ht Htl) as [e He]. eauto.
+      + intros l Hl. destruct (wf_loop g lv Hwf f fl l Hf ltac:(rewrite Ep; exact Hl)) as [t [tl [Ht _]]]. eauto.
+      + rewrite Hes. eauto.
+  Qed.
+
+  Lemma total_at : forall L C F R f fl k, lv f <= L -> cnt g R <= C -> f <= F ->
+    nth_error (flows g) f = Some fl -> depth_bound L C F <= k ->
+    exists e, names_pure canon g k R f = Some e.
+  Proof.
+    induction L as [L IHL] using (well_founded_induction lt_wf).
+    induction C as [C IHC] using (well_founded_induction lt_wf).
+    induction F as [F IHF] using (well_founded_induction lt_wf).
+    intros R f fl k HL HC HF Hf Hk.
+    destruct k as [|k]; [unfold depth_bound in Hk; lia|].
+    assert (HN : f < length (flows g)) by (eapply flow_lt; eauto).
+    assert (Hparents : exists pe, pnames_with canon g (names_pure canon g k) R fl = Some pe).
+    { apply (pnames_defined_at k R f fl Hf).
+      - intros i il Hi Hil. destruct (wf_dir g lv Hwf f fl i Hf Hi) as [Hl Hlt].
+        apply (IHF (f - 1) ltac:(lia) R i il k ltac:(lia) HC ltac:(lia) Hil).
+        unfold depth_bound in *. lia.
+      - intros l t tl Hl Hn Ht Htl. destruct (wf_loop g lv Hwf f fl l Hf Hl) as [t' [tl' [Ht' [Hlv _]]]].
+        rewrite Ht in Ht'. inversion Ht'; subst t'.
+        assert (Hc := cnt_cons g l R t Ht Hn).
+        apply (IHC (C - 1) ltac:(lia) (length (flows g)) (l :: R) t tl k ltac:(lia) ltac:(lia)
+                 ltac:(assert (A := flow_lt t tl Htl); lia) Htl).
+        unfold depth_bound, NF in *. nia.
+      - intros c cl Hp Hc Hcl. destruct (wf_chain g lv Hwf f fl c Hf Hp Hc) as [Hlt _].
+        apply (IHL (L - 1) ltac:(lia) (length (loops g)) (length (flows g)) R c cl k ltac:(lia) (cnt_le R)
+                 ltac:(assert (A := flow_lt c cl Hcl); lia) Hcl).
+        unfold depth_bound, NF, NL in *. nia. }
+    simpl. rewrite Hf. destruct (closes_of g f) as [l|] eqn:Ec.
+    - destruct (existsb (Nat.eqb l) R) eqn:Em.
+      + destruct Hparents as [pe Hpe]. rewrite Hpe. eauto.
+      + apply existsb_eqb_nIn in Em. assert (Ht := closes_of_spec _ _ _ Ec).
+        assert (Hc := cnt_cons g l R f Ht Em).
+        apply (IHC (C - 1) ltac:(lia) F (l :: R) f fl k HL ltac:(lia) HF Hf).
+        unfold depth_bound, NF in *. nia.
+    - destruct Hparents as [pe Hpe]. rewrite Hpe. eauto.
+  Qed.
+End Bound.
+
+Definition fuel_bound (g : graph) (lvs : list nat) : nat :=
+  S (list_max lvs) * S (length (loops g)) * S (length (flows g)) + S (length (loops g)) * S (length (flows g)) + S (length (flows g)).
+
+Lemma lvf_le_max lvs f : lvf lvs f <= list_max lvs.
+Proof.
+  unfold lvf. revert f. induction lvs as [|x r IH]; intros f; simpl; [destruct f; lia|].
+  destruct f as [|f]; [lia|]. specialize (IH f). lia.
+Qed.
+
+Lemma names_pure_defined_bound canon g lvs R f fl m : gwf g (lvf lvs) ->
+  nth_error (flows g) f = Some fl -> fuel_bound g lvs <= m ->
+  exists e, names_pure canon g m R f = Some e.
+Proof.
+  intros Hwf Hf Hm.
+  apply (total_at canon g (lvf lvs) Hwf (list_max lvs) (length (loops g)) (length (flows g)) R f fl m
+           (lvf_le_max lvs f) (cnt_le g R) ltac:(assert (A := flow_lt g f fl Hf); lia) Hf).
+  unfold depth_bound, NL, NF, fuel_bound in *. nia.
+Qed.
+
+Lemma query_pure_defined_bound g lvs km q m f fl : gwf g (lvf lvs) ->
+  fst (fst q) = f -> nth_error (flows g) f = Some fl -> fuel_bound g lvs <= m ->
+  exists a, query_pure g km m q = Some a.
+Proof.
+  intros Hwf Hq Hf Hm. destruct q as [[f0 loc] nm]. simpl in Hq. subst f0.
+  unfold query_pure, names_at_idx. rewrite Hf.
+  destruct (pnames_defined_at (norm km) g (lvf lvs) Hwf m [] f fl Hf) as [pe Hpe].
+  - intros i il _ Hil. eapply names_pure_defined_bound; eauto.
+  - intros l t tl _ _ _ Htl. eapply names_pure_defined_bound; eauto.
+  - intros c cl _ _ Hcl. eapply names_pure_defined_bound; eauto.
+  - rewrite Hpe. eauto.
+Qed.
+
 (* ---- the theorem ------------------------------------------------------------------------------- *)
 
 Lemma query_memo_full g lvs km fuel st q a st' : gwf g (lvf lvs) ->
@@ -939,4 +1079,24 @@ Proof.
   intros Hwfb Hh Hq. assert (Hwf := graph_wfb_sound g lvs Hwfb).
   assert (Ht := run_history_top g lvs km fuel Hwf h _ _ (top_inv_init (norm km) g (lvf lvs)) Hh).
   destruct (query_memo_full g lvs km fuel st q a st' Hwf Ht Hq) as [_ H]. exact H.
+Qed.
+
+(* with the explicit fuel bound *)
+Theorem memo_transparent_bound g lvs km fuel h q st a st' m :
+  graph_wfb g lvs = true ->
+  run_history false g km fuel init_state h = Some st ->
+  query_memo g km fuel st q = Some (a, st') ->
+  fuel_bound g lvs <= m ->
+  exists a', query_pure g km m q = Some a' /\ row_eq a a'.
+Proof.
+  intros Hwfb Hh Hq Hm. assert (Hwf := graph_wfb_sound g lvs Hwfb).
+  destruct (memo_transparent_full g lvs km fuel h q st a st' Hwfb Hh Hq) as [n Hn].
+  assert (Hfl : exists fl, nth_error (flows g) (fst (fst q)) = Some fl).
+  { destruct q as [[f loc] nm]. simpl. unfold query_memo, query_memo_gen in Hq.
+    destruct (nth_error (flows g) f) as [fl|]; [eauto|discriminate]. }
+  destruct Hfl as [fl Hfl].
+  destruct (query_pure_defined_bound g lvs km q m _ fl Hwf eq_refl Hfl Hm) as [a1 Ha1].
+  destruct (Hn (Nat.max n m) ltac:(lia)) as [a' [Ha' Hr]].
+  assert (E := query_pure_mono g km m (Nat.max n m) q a1 ltac:(lia) Ha1).
+  rewrite Ha' in E. inversion E; subst a1. exists a'. auto.
 Qed.
